@@ -88,8 +88,17 @@ Fixpoint gen_sched (g : geom) (nthreads : N) (orders : list nat) (n : nat) (x : 
 Definition ords := [0;1;2;3;5;6;7;8;9]%nat.
 Definition b1 := boot (free_all g8 700) [] 3.
 Time Eval vm_compute in cover_tags g8 (gen_sched g8 3 ords 400 12345 b1) b1 [].
-Definition b2 := boot (reserve_all g8 700) (alloc_all_held g8 700) 3.
+Definition b2 := boot (reserve_all g8 600) (alloc_all_held g8 600) 3.
 Time Eval vm_compute in inv_b g8 b2.
-Definition t2 := fuzz g8 3 ords 400 0 0 777 b2 [].
+Definition t2 := fuzz g8 3 ords 300 1 1 777 b2 [].
 Time Eval vm_compute in (fst t2, summary (snd t2)).
-Time Eval vm_compute in cover_tags g8 (gen_sched g8 3 ords 400 777 b2) b2 [].
+(* split protocol: only huge blocks held initially, 4 threads *)
+Definition b3 := boot (reserve_all g8 1024) (alloc_all_held g8 1024) 4.
+Definition t3 := fuzz g8 4 [0;3;6;7;8]%nat 600 0 0 4242 b3 [].
+Time Eval vm_compute in (fst t3, summary (snd t3)).
+Time Eval vm_compute in cover_tags g8 (gen_sched g8 4 [0;3;6;7;8]%nat 600 4242 b3) b3 [].
+(* huge and multi-row orders only *)
+Definition b4 := boot (free_all g8 1024) [] 4.
+Definition t4 := fuzz g8 4 [7;8;9;7;8]%nat 600 0 0 99 b4 [].
+Time Eval vm_compute in (fst t4, summary (snd t4)).
+Time Eval vm_compute in cover_tags g8 (gen_sched g8 4 [7;8;9;7;8]%nat 600 99 b4) b4 [].
